@@ -237,7 +237,7 @@ pub fn run(ctx: &Ctx) -> Report {
     }
     // the existence probe itself may fail: an error must not be read as "absent"
     {
-        let w = Worker::new(46, &ctx.pool.bins);
+        let w = Worker::new(146, &ctx.pool.bins);
         let mut jobs = vec![];
         let mut errs = vec![];
         let mut nsites = 0;
